@@ -1291,9 +1291,10 @@ impl Options {
             if cfg!(feature = "power-of-two") && exp < 13 {
                 // 11 for the exponent digits in binary, 1 for the sign, 1 for the symbol
                 count += 13;
-            } else if exp < 5 {
-                // 3 for the exponent digits in decimal, 1 for the sign, 1 for the symbol
-                count += 5;
+            } else if exp < 12 {
+                // 10 for the decimal `u32` buffer the exponent writer requires (it
+                // only uses up to 3 of them), 1 for the sign, 1 for the symbol
+                count += 12;
             } else {
                 // More leading or trailing zeros than the exponent digits.
                 count += exp;
